@@ -44,10 +44,15 @@ REGISTRATION = {
             "abstract row array; the driver compares every layer), the cached curMask between passes (SetCausal is observed "
             "only inside an accepted pass). Theorems about defrag / refinement are for the repaired coalescing (fixDefrag, "
             "in the tree; F14 witness shows the pinned one is wrong). canResume_sound assumes the sequence holds no position "
-            "twice (on-contract histories). The model variant (which repairs the tree carries: F14, F15b, F23, SWA capacity, "
+            "twice; canResume_sound_on_contract discharges that for every history that keeps the contract (batches bring new, distinct "
+            "positions for their sequences; removals go to the end). The model variant (which repairs the tree carries: F14, F15b, F23, SWA capacity, "
             "F28 atomic Remove) is probed from the real code on every run; the F14/F15b/F23 witnesses are historical "
             "(fixed in /repo), F15, F28 and F3 are live. WrapperCache.Remove stops at the first failing wrapped cache after "
-            "earlier ones succeeded (not atomic across caches; cache.go asks callers to clear the sequence after an error).",
+            "earlier ones succeeded (finding F29, known, by contract: wrapper.go / cache.go oblige the caller to clear the sequence with "
+            "Remove(seq, 0, MaxInt32) after an error, and the runner does; patch proposed, not applied). The WrapperCache theorems are "
+            "therefore under that guard: wrapper_forward_refines / wrapper_rejected_batch_spec speak about StartForward, the no-guard "
+            "refinement (history_exposes_spec_total) is for a single Causal; F29_wrapper_remove_half_done is the witness and "
+            "wRemoveV_error_unchanged the statement for the proposed repair.",
 }
 
 MODULES = ["OllamaVerif.Properties.C06", "OllamaVerif.Tie.C06"]
@@ -106,6 +111,10 @@ THEOREMS = [
     "OllamaVerif.C06.F28_refused_remove_shared",
     "OllamaVerif.C06.F28_refused_remove_notsup",
     "OllamaVerif.C06.canResume_sound",
+    "OllamaVerif.C06.canResume_sound_on_contract",
+    "OllamaVerif.C06.nodupPos_runT",
+    "OllamaVerif.C06.nodupPos_specStepT",
+    "OllamaVerif.C06.canResume_contract_nonvacuous",
     "OllamaVerif.C06.window_present",
     "OllamaVerif.C06.pigeon",
     "OllamaVerif.C06.reserve_state",
@@ -319,6 +328,8 @@ def run(ctx):
         "applies data movement at once",
         "the runner calls CanResume immediately before a suffix Remove on windowed caches (histories that do "
         "not are counted as l2_skip_window_misuse, not judged)",
+        "WrapperCache: after a refused Remove the caller clears the sequence in every wrapped cache (cache.go / wrapper.go "
+        "contract; until then the wrapped caches may disagree about the sequence: F29)",
     ]
     return ctx.finish(
         level="proof",
